@@ -9,6 +9,7 @@ require (
 )
 
 require (
+	github.com/fatih/structtag v1.2.0 // indirect
 	github.com/pkg/errors v0.9.1 // indirect
 	github.com/xelaj/go-dry v0.0.0-20210621215431-21c77821487c // indirect
 	golang.org/x/crypto v0.0.0-20210322153248-0c34fe9e7dc2 // indirect
